@@ -441,8 +441,8 @@ theorem C09_failing_first_push (cfg : Cfg) (fs : FS) (r1 r2 : List Series.Entry)
 range `r₂` a second invocation (any goal) then chooses, a single invocation from the original tree with the goal
 "`|r₁| + |r₂|` patches" chooses `r₁ ++ r₂`.  Needs: the old `.pc/applied-patches` is absent, or parses and ends with a
 newline (`AppliedOK`).  That the names of `r₁` survive being recorded in `.pc/applied-patches` and read back is no
-longer a hypothesis: every name `readSeries` returns is `Series.PlainName` (non-empty, no whitespace, valid UTF-8 —
-`Series.readSeries_names_plain`), and a plain name reads back as itself with `readApplied`
+longer a hypothesis: every name `readSeries` returns is `Series.PlainName` (non-empty, no Unicode white-space
+character, valid UTF-8 — `Series.readSeries_names_plain`), and a plain name reads back as itself with `readApplied`
 (`Series.plainName_iff`).  Before the repair of `hash-named-patch` this failed for a name like `#x` (a series line
 ` #x` with leading whitespace): recorded as `#x`, read back as a comment (`C09_hash_name_roundtrip`). -/
 theorem C09_plan_composes (cfg cfg2 : Cfg) (fs : FS) (r1 r2 : List Series.Entry) (hdry : cfg.dryRun = false)
